@@ -4,7 +4,11 @@ Line-protocol driver for component `journal` (model `PSO.Journal`).
 
 One command per line, tokens separated by single spaces, bytes as lower-case hex (`-` = empty).
 
-  new <verhex>                      fresh journal (file did not exist), APP_VERSION bytes given
+  new <verhex>                      fresh journal (file missing or zero-length), APP_VERSION bytes given
+                                    -> `ok <summary> P FC,FW40:<adler>,R1024`
+  crashnew <verhex> <k> <t>         crash image of that creation (k prims done + t bytes of the next) and
+                                    what the next constructor makes of it:
+                                    `ok np=3 <disk> | len= cur= ci= fsize= fsum= P <prims of the reopen>`
   load <filehex> <meta|none> [<jthex>]   open an arbitrary disk image (optional left-over `<journal>.tmp`;
                                     the APP_VERSION of the last `new` is kept)
   add <idx> <term> <cmdhex> | clear | delfrom <n> | delto <n> | setci <v> | timer | reopen | settv
@@ -21,7 +25,8 @@ One command per line, tokens separated by single spaces, bytes as lower-case hex
 summary = `len= cur= ci= saved= fsize= fsum= meta= tmp= jt=<absent|len:adler>`; prims = `R<n>`,
 `S<off>:<len>:<adler>`, `TC`, `TW<v|none>`, `TM`, and on `<journal>.tmp`: `JR` (remove), `JC` (create empty),
 `JW<len>:<adler>` (header written), `JZ<n>` (resize), `JS<off>:<len>:<adler>` (store), `JM` (rename onto the
-journal); comma separated (`-` = none). Torn `JW`/`JS` (>4 bytes) = prefix; `JS` of the header word is atomic.
+journal), creation of the journal file: `FC` (created empty), `FW<len>:<adler>` (default content written, tearable);
+comma separated (`-` = none). Torn `JW`/`JS` (>4 bytes) = prefix; `JS` of the header word is atomic.
 -/
 namespace Driver.Journal
 open PSO PSO.Journal
@@ -71,6 +76,8 @@ def primStr : Prim → String
   | .jtResize n => s!"JZ{n}"
   | .jtStore off bs => s!"JS{off}:{bs.length}:{adler bs}"
   | .jtRename => "JM"
+  | .fCreate => "FC"
+  | .fWrite bs => s!"FW{bs.length}:{adler bs}"
 
 def primsStr (ps : List Prim) : String :=
   if ps.isEmpty then "-" else ",".intercalate (ps.map primStr)
@@ -116,7 +123,21 @@ def opPrims (j : FJ) (op : Op) : List Prim :=
 def handle (j : FJ) (line : String) : FJ × String :=
   let toks := line.splitOn " "
   match toks with
-  | ["new", v] => let j' := create (fromHex v); (j', "ok " ++ summary j')
+  | ["new", v] =>
+    match openDisk (fromHex v) { file := [] } with
+    | .ok (j', ps) => (j', "ok " ++ summary j' ++ " P " ++ primsStr ps)
+    | .error e => (j, "err " ++ errStr e)
+  | ["crashnew", v, k, t] =>
+    match k.toNat?, t.toNat? with
+    | some k, some t =>
+      let ver := fromHex v
+      let ps := createPrims ver ++ [Prim.resize INITIAL_SIZE]
+      let d := crashDisk { file := [] } ps k t
+      let o := match openDisk ver d with
+        | .ok (j', ps') => s!"len={j'.entries.length} cur={j'.cur} ci={j'.commitIndex} fsize={j'.disk.file.length} fsum={adler j'.disk.file} P {primsStr ps'}"
+        | .error e => "err " ++ errStr e
+      (j, s!"ok np={ps.length} {diskStr d} | {o}")
+    | _, _ => (j, "bad")
   | "load" :: f :: m :: rest =>
     let jt : Option Bytes := match rest with
       | [x] => some (fromHex x)
